@@ -170,6 +170,10 @@ pub mod zfenv {
     pub assume_specification<T: ?Sized, A: core::alloc::Allocator> [<Box<T, A> as AsRef<T>>::as_ref] (b: &Box<T, A>) -> (r: &T)
         ensures r == &**b;
 
+    /// `<[T]>::to_vec`: only "as many elements as the slice" is needed (and assumed).
+    pub assume_specification<T: Clone> [<[T]>::to_vec] (s: &[T]) -> (r: Vec<T>)
+        ensures r@.len() == s@.len();
+
     pub assume_specification [u8::is_ascii_digit] (x: &u8) -> (r: bool)
         ensures r == (48 <= *x && *x <= 57);
 
